@@ -11,7 +11,9 @@ package dns
 //   dns.DecodeRDataTXT         arbitrary RDATA
 // Inputs: genuine queries / responses (names under and outside the domain, EDNS OPT, TXT answers,
 // several questions, compressed names incl. pointer chains and loops) raw-mutated, with tampered
-// counts and lengths, truncated, extended; random bytes.
+// counts and lengths, truncated, extended; random bytes; names made of compression pointers into EVERY
+// offset of the message (kit.C11DNSPointerDatagram: header fields that themselves read as pointers /
+// labels, cycles of length 1-3 through the header, loops in the RDATA of an earlier record).
 // Oracle: no panic (recovered per case, reported with the input) + the per-input watchdog.
 
 import (
@@ -146,12 +148,19 @@ func verifC11GenMsg(r *rand.Rand, idx int) kit.C11Case {
 	switch x := r.Intn(20); {
 	case x < 3:
 		return kit.C11Case{In: verifC11Valid(r), Kind: "genuine"}
-	case x < 6:
+	case x < 5:
 		b := verifC11Pointers(r)
 		if r.Intn(2) == 0 {
 			b, _ = kit.C11Mutate(r, b, nil)
 		}
 		return kit.C11Case{In: b, Kind: "pointers"}
+	case x < 6: // pointers into every offset of the message, the header bytes included (header fields that read as pointers / labels)
+		b, k := kit.C11DNSPointerDatagram(r)
+		if r.Intn(4) == 0 {
+			b, _ = kit.C11Mutate(r, b, nil)
+			k += "+mutated"
+		}
+		return kit.C11Case{In: b, Kind: k}
 	case x < 8: // counts tampered
 		b := verifC11Valid(r)
 		i := 4 + 2*r.Intn(4)
